@@ -726,19 +726,32 @@ def _stack_chunk(args):
     known = {'rule3-current': 0, 'coarse-bottom': 0}
     new = []
     for combo in combos:
+        bottom = None
+        if combo and isinstance(combo[0], int):
+            bottom, combo = combo[0], combo[1]
         dels = [{'ch': ch, 'n': n, 'open': o, 'close': c} for ch, n, o, c in combo]
+        # the runs the call has to pair up: those above the stack bottom; pending brackets are skipped over
+        region = [i for i, d in enumerate(dels) if d['ch'] != '[' and (bottom is None or i > bottom)]
+        sub = [dels[i] for i in region]
         it = Interp(model, loop_bound=16, while_bound=60)
         it.reset_run(Oracle())
         objs = _make_delimiters(model, it, dels)
         matches = []
+        stack = list(objs)
         try:
-            it.call_function(pe, [RunString(dels), None, list(objs), matches], {})
+            it.call_function(pe, [RunString(dels), bottom, stack, matches], {})
             got = []
             for m in matches:
                 st = Aff.lift(it.call(it.getattr(m, 'start'), [], {}))
                 en = Aff.lift(it.call(it.getattr(m, 'end'), [], {}))
                 got.append((repr(st), repr(en), it.getattr(m, 'type')))
             got = sorted(got)
+            if bottom is not None:
+                # what lies below the bottom belongs to the caller: same objects, untouched
+                kept = len(stack) == bottom and all(a is b for a, b in zip(stack, objs)) and \
+                    all(it.getattr(o, 'number') == dels[i]['n'] for i, o in enumerate(objs[:bottom]))
+                if not kept:
+                    got = 'touches the delimiters below the stack bottom (left %d of %d)' % (len(stack), bottom)
         except Raised as r:
             got = 'raises %s' % r.exc.kind
         except InterpError as e:
@@ -747,21 +760,24 @@ def _stack_chunk(args):
         def spans(pairs):
             out = []
             for oi, ur, ci, ul, k in pairs:
+                oi, ci = region[oi], region[ci]
                 st = Aff.sym('p%d' % oi).add(Aff({}, dels[oi]['n'] - ur - k))
                 en = Aff.sym('p%d' % ci).add(Aff({}, ul + k))
                 out.append((repr(st), repr(en), 'Strong' if k == 2 else 'Emphasis'))
             return sorted(out)
-        want = spans(spec_emphasis(dels))
+        want = spans(spec_emphasis(sub))
         label = ' '.join('%s%s%s' % (d['ch'] * d['n'], 'o' if d['open'] else '', 'c' if d['close'] else '') for d in dels)
-        if spans(known_deviation_model(dels, False, False)) != want:
+        if bottom is not None:
+            label += ' with the stack bottom at element %d' % bottom
+        if spans(known_deviation_model(sub, False, False)) != want:
             raise AnalysisError('the deviation model disagrees with the specification algorithm on [%s]' % label)
         if got == want:
             continue
         # describe the difference when it is one of the two deviations this code base once had
-        if got == spans(known_deviation_model(dels, True, False)):
+        if got == spans(known_deviation_model(sub, True, False)):
             known['rule3-current'] += 1
             why = 'the rule of three is applied to what is left of the runs, not to their lengths as written'
-        elif got == spans(known_deviation_model(dels, False, True)) or got == spans(known_deviation_model(dels, True, True)):
+        elif got == spans(known_deviation_model(sub, False, True)) or got == spans(known_deviation_model(sub, True, True)):
             known['coarse-bottom'] += 1
             why = 'an opener-search bound recorded for one kind of closer cuts off the search for another kind'
         else:
@@ -794,8 +810,19 @@ def rule_stack_sim(ctx, rep):
                 ('4 runs, all both-flanking', itertools.product(both3, repeat=4)),
                 ('5 runs, all both-flanking, length 1..2', itertools.product(both2, repeat=5)),
                 ('5 runs, length 1', itertools.product(ones, repeat=5))]
+    small = [(ch, n, o, c) for ch in '*_' for n in (1, 2) for (o, c) in flags]
+    br = ('[', 1, False, False)
+    # a link's text is processed with the stack bottom at its bracket: only the runs above it, the rest untouched
+    families.append(('1 run, the bracket at the stack bottom, 2 runs',
+                     ((1, (a, br, b, c)) for a in both3 for b in kinds for c in kinds)))
+    # a bracket that is still pending when the whole stack is processed is stepped over
+    families.append(('3 runs of length 1..2 around a pending bracket',
+                     ((a, br, b, c) if k == 1 else (a, b, br, c) for k in (1, 2) for a in small for b in small for c in small)))
     if ctx.thorough:
-        small = [(ch, n, o, c) for ch in '*_' for n in (1, 2) for (o, c) in flags]
+        families += [('2 runs, the bracket at the stack bottom, 3 runs of length 1..2',
+                      ((2, (a, b, br, c, d, e)) for a in both2 for b in both2 for c in small for d in small for e in small)),
+                     ('3 runs around a pending bracket',
+                      ((a, br, b, c) if k == 1 else (a, b, br, c) for k in (1, 2) for a in kinds for b in kinds for c in kinds))]
         families += [('4 runs, length 1..2', itertools.product(small, repeat=4)),
                      ('5 runs, all both-flanking', itertools.product(both3, repeat=5)),
                      ('6 runs, all both-flanking, length 1..2', itertools.product(both2, repeat=6)),
